@@ -275,6 +275,20 @@ pub fn build(
         );
     };
 
+    // `&self` / `&mut self` is only meaningful in the first position.
+    for (index, argument) in function.arguments.iter().enumerate() {
+        let is_receiver = matches!(
+            argument,
+            grammar::Argument::ConstSelf | grammar::Argument::MutSelf
+        );
+        if index > 0 && is_receiver {
+            anyhow::bail!(
+                "the receiver of function `{}` must be its first argument",
+                function.name
+            );
+        }
+    }
+
     let arguments = function
         .arguments
         .iter()
